@@ -254,6 +254,10 @@ var _ = sort.Strings
 var _ = token.ADD
 
 var c06Witnesses = []Witness{
+	{Name: "sort-comparator-indexes-past-own-index", Rule: "R-PANIC", Edits: []Edit{
+		{File: "compiler.go", Old: "		return root.children[i].cost < root.children[j].cost", New: "		return root.children[i].cost < root.children[j+1].cost"}}},
+	{Name: "sort-comparator-indexes-other-slice", Rule: "R-PANIC", Edits: []Edit{
+		{File: "compiler.go", Old: "	sort.SliceStable(root.children, func(i, j int) bool {", New: "	sort.SliceStable(append(root.children, root), func(i, j int) bool {"}}},
 	{Name: "empty-token-list-guard-removed", Rule: "R-PANIC", Edits: []Edit{
 		{File: "parser.go", Old: "	last := len(p.tokens) - 1\n	if last < 0 {\n		return p.invalidExprErr(0)\n	}\n", New: "	last := len(p.tokens) - 1\n"}}},
 	{Name: "list-opener-lookahead-unguarded", Rule: "R-PANIC", Edits: []Edit{
